@@ -212,6 +212,31 @@ var invalidAddrs = []packet.Addr{
 	{MAC: net.HardwareAddr{2, 0, 0, 0, 0, 9}, IP: netip.MustParseAddr("::ffff:192.168.0.2")}, // 4in6: not Is4
 }
 
+// public send calls with an address that is not IPv4 or a MAC that is not 6 bytes
+func invalidCalls(h *arp_spoofer.Handler) []func() error {
+	m1, m2 := mac6(macs[0]), mac6(macs[1])
+	good := packet.Addr{MAC: m1, IP: ip4(ipA)}
+	v6 := netip.MustParseAddr("fe80::1")
+	in6 := netip.MustParseAddr("::ffff:192.168.0.11")
+	return []func() error{
+		func() error { return h.AnnounceTo(m2, netip.Addr{}) },
+		func() error { return h.AnnounceTo(m2, in6) },
+		func() error { return h.AnnounceTo(nil, lib.RouterIP4) },
+		func() error { return h.Probe(netip.Addr{}) },
+		func() error { return h.Probe(v6) },
+		func() error { return h.RequestRaw(m2, packet.Addr{MAC: m1}, good) },
+		func() error { return h.RequestRaw(nil, good, good) },
+		func() error { return h.RequestRaw(m2, packet.Addr{IP: ip4(ipA)}, good) },
+		func() error { return h.RequestRaw(m2, good, packet.Addr{MAC: net.HardwareAddr{1, 2, 3}, IP: ip4(ipA)}) },
+		func() error { return h.Reply(m2, good, packet.Addr{MAC: m1, IP: in6}) },
+		func() error { return h.Reply(m2, packet.Addr{MAC: net.HardwareAddr{1, 2, 3, 4, 5, 6, 7}, IP: lib.RouterIP4}, good) },
+		func() error { return h.Request(netip.Addr{}) },
+		func() error { return h.Request(v6) },
+		func() error { return h.RequestTo(m2, in6) },
+		func() error { return h.RequestTo(nil, ip4(ipA)) },
+	}
+}
+
 func execScript(args []string) (res result) {
 	c, ok := parseCfg(args[0])
 	if !ok {
@@ -269,6 +294,7 @@ func execScript(args []string) (res result) {
 	toks := []string{args[0]}
 	var lastAt time.Duration = -1 // schedule time of the most recent @ token not yet consumed by a W
 	nInvalid := 0
+	nScans, nInvalidCalls := 0, 0
 	seenAttempts := 0
 	take := func() [][]byte { seenAttempts = conn.Attempts(); return conn.Take() }
 	// The session's offer table is the handler's environment: it changes by SetDHCPv4IPOffer but also
@@ -357,13 +383,19 @@ func execScript(args []string) (res result) {
 			b := lib.MkEther(dst, mac6(f[2]), 0x0806, lib.MkARP(uint16(op), mac6(f[3]), ip4(f[4]), mac6(f[5]), ip4(f[6])))
 			frame, err := session.Parse(b)
 			syncOffers()
+			toks = append(toks, t)
 			if err != nil {
 				obs = append(obs, "parse-error")
 			} else {
 				h.ProcessPacket(frame)
-				obs = append(obs, showOut(take()))
+				// a spoof reply (request branch: sender IP set) is decided by R and written by RR; a probe reject is R's own
+				if f[4] != "00000000" {
+					obs = append(obs, "-", showOut(take()))
+				} else {
+					obs = append(obs, showOut(take()), "-")
+				}
+				toks = append(toks, "RR,0")
 			}
-			toks = append(toks, t)
 		case "L", "K":
 			// lookup and check of a loop iteration: nothing to see; the write is the "D" token
 			obs = append(obs, "-")
@@ -405,13 +437,19 @@ func execScript(args []string) (res result) {
 			b := lib.MkEther(packet.EthernetBroadcast, mac6(macs[0]), uint16(et), lib.UnHex(f[2]))
 			frame, _ := session.Parse(b) // whatever Parse hands over, error or not, goes to the handler
 			syncOffers()
+			toks = append(toks, t)
 			if p, _ := lib.Catch(func() { h.ProcessPacket(frame) }); p {
 				obs = append(obs, "panic")
 				take()
 			} else {
-				obs = append(obs, showOut(take()))
+				raw := lib.UnHex(f[2])
+				if len(raw) >= 18 && (raw[14] != 0 || raw[15] != 0 || raw[16] != 0 || raw[17] != 0) {
+					obs = append(obs, "-", showOut(take()))
+				} else {
+					obs = append(obs, showOut(take()), "-")
+				}
+				toks = append(toks, "RR,0")
 			}
-			toks = append(toks, t)
 		case "AR":
 			h.Request(ip4(f[1]))
 			obs = append(obs, showOut(take()))
@@ -437,8 +475,49 @@ func execScript(args []string) (res result) {
 			obs = append(obs, showOut(take()))
 			toks = append(toks, t)
 		case "AS":
+			// Scan() visits lan+1 .. lan+2^(32-bits)-2; for every address the model takes a ScanCheck and a ScanSend
+			// step; the request whose target is the k-th address is the observation of the k-th ScanSend
 			h.Scan()
-			obs = append(obs, showOut(take()))
+			fs := take()
+			obs = append(obs, "-")
+			toks = append(toks, t)
+			nips := (1 << (32 - c.lan.Bits())) - 2
+			base := c.lan.Addr().As4()
+			b0 := uint32(base[0])<<24 | uint32(base[1])<<16 | uint32(base[2])<<8 | uint32(base[3])
+			used := make([]bool, len(fs))
+			for k := 1; k <= nips; k++ {
+				ipk := b0 + uint32(k)
+				var mine [][]byte
+				for x, fr := range fs {
+					if !used[x] && len(fr) >= 42 && uint32(fr[38])<<24|uint32(fr[39])<<16|uint32(fr[40])<<8|uint32(fr[41]) == ipk {
+						mine = append(mine, fr)
+						used[x] = true
+					}
+				}
+				if k == nips {
+					for x, fr := range fs { // whatever is left is unexpected: it ends up in the last step
+						if !used[x] {
+							mine = append(mine, fr)
+						}
+					}
+				}
+				obs = append(obs, "-", showOut(mine))
+				toks = append(toks, "SC,"+strconv.Itoa(nScans), "SS,"+strconv.Itoa(nScans))
+			}
+			nScans++
+		case "RR", "SC", "SS":
+			// regenerated by R / X / AS: tokens of a replayed line are dropped here
+		case "AX":
+			// a public send call with an unusable address or MAC
+			calls := invalidCalls(h)
+			k := nInvalidCalls % len(calls)
+			nInvalidCalls++
+			if p, _ := lib.Catch(func() { calls[k]() }); p {
+				obs = append(obs, "panic")
+				take()
+			} else {
+				obs = append(obs, showOut(take()))
+			}
 			toks = append(toks, t)
 		case "AH":
 			// tries = how often FindIP failed = how many writes WhoIs attempted (a refused write ends it:
@@ -599,7 +678,7 @@ func genAPI(rng *lib.Rand) string {
 	case 6:
 		return "AH," + pick(rng, []string{ipA, ipB, ipC, ipOff}) + ",0"
 	default:
-		return "AR," + ip
+		return "AX"
 	}
 }
 
@@ -888,6 +967,8 @@ func directed() [][]string {
 		{"AR," + ipA, "AT," + m1 + "," + ipB, "AP," + ipA, "AA," + m1 + "," + ipA, "AA," + m2 + "," + ipRouter,
 			"AW," + m2 + ",005555555555," + ipRouter + ",ffffffffffff," + ipRouter, "AY," + m2 + ",005555555555," + ipRouter + "," + m2 + "," + ipB,
 			"AW," + m2 + ",006666666666," + ipRouter + ",006666666666," + ipRouter, "AH," + ipA + ",0", who(m3, ipC), "AH," + ipC + ",0"},
+		// unusable arguments: every public send call refuses, nothing is written (after a caller-forged announcement filled the pooled buffer)
+		{"AA," + m1 + "," + ipRouter, "AX", "AX", "AX", "AX", "AX", "AX", "AX", "AX", "AX", "AX", "AX", "AX", "AX", "AX", "AX", "AR," + ipA},
 		// API calls still send after Close (the caller's call); the handler itself is silent
 		{"S," + m1 + "," + ipA, "W,0,0", "C", "W,0,0", "AR," + ipA, "AA," + m1 + "," + ipRouter, who(m1, ipA)},
 		// refused writes: first announcement, spoof reply, probe reject, API
